@@ -124,11 +124,14 @@ def affects(pt, ev_pt, locs):
         return False
     if locs is None:
         return True
-    fb = fields_beyond(pt, ev_pt)
+    fb = fields_beyond(pt, ev_pt)          # innermost first
     named = [x for x in fb if x[0] and not x[0].startswith(("core::", "alloc::"))]
     if not named:
         return True
-    return any(x in locs for x in named)
+    W, whole = locs
+    if named[0] in W:
+        return True
+    return any(x in whole for x in named[1:])
 
 
 class Evaluator:
@@ -271,6 +274,8 @@ class Evaluator:
                         return ("int", base[2][const_val(pt[2])])
                     if base[0] == "constarr":
                         return ("pure", "index", (base, pt[2]))
+                    if base[0] in ("call", "pure", "field", "param", "unknown") and is_const(pt[2]):
+                        return ("field", base, "[%d]" % const_val(pt[2]))
                 elif k == "cidx":
                     if base[0] == "array" and not pt[3] and pt[2] < len(base[1]):
                         return base[1][pt[2]]
@@ -833,7 +838,7 @@ class Evaluator:
                 if (j + 1) in summ["WP"]:
                     self.havoc(st, a[1], None)
                 else:
-                    self.havoc(st, a[1], summ["W"])
+                    self.havoc(st, a[1], (summ["W"], summ["W"] - summ["Wel"]))
             else:
                 self._havoc_arg(st, a)
 
